@@ -290,6 +290,35 @@ fn run(ctx: &RunCtx) -> Report {
             if acks == 0 && verdict(&r.1) == Res::Ok {
                 odd_round.set(true);
             }
+            // a 3xx majority that only becomes complete with the very last outstanding reply of the round,
+            // after an acknowledgement, is reported as Ok by design (the put is done first): not judged
+            // (thorough-tier false alarm of family 8 when a straggler was left out of the round)
+            if acks > 0 && verdict(&r.1) != Res::Ok {
+                let writer_addr = sim.node_addr(writer);
+                let mut arrivals: Vec<(u64, usize)> = sim.with_trace(|tr| {
+                    r.1.iter()
+                        .filter_map(|i| tr.iter().find(|d| d.src == addrs[*i] && d.dst == writer_addr && d.t_send >= r.0 && d.fate == Fate::Delivered && Krpc::parse(&d.bytes).map(|k| !k.is_query()).unwrap_or(false)).map(|d| (d.t_deliver.unwrap_or(d.t_send), *i)))
+                        .collect()
+                });
+                arrivals.sort();
+                let half = r.1.len() / 2 + 1;
+                let (mut c301, mut c302) = (0usize, 0usize);
+                let mut complete_at = None;
+                for (j, (_, i)) in arrivals.iter().enumerate() {
+                    match reply_plan[*i] {
+                        PutReply::Error(301) => c301 += 1,
+                        PutReply::Error(302) => c302 += 1,
+                        _ => {}
+                    }
+                    if complete_at.is_none() && (c301 >= half || c302 >= half) {
+                        complete_at = Some(j);
+                    }
+                }
+                if complete_at.map(|j| j + 1 == r.1.len()).unwrap_or(true) {
+                    odd_round.set(true);
+                    report.probe("majority_completed_by_the_last_reply", 1);
+                }
+            }
         }
         match (rounds.first(), rounds.last()) {
             (Some(a), Some(b)) => (verdict(&a.1), verdict(&b.1)),
